@@ -415,6 +415,7 @@ func runTQ(c *core.Ctx, own tqOwner, g tqGen) {
 	// direct observations: hang / panic, confirmed by re-running the script alone
 	badIDs := map[int]bool{}
 	directSeen := map[string]int{}
+	unreproducedHangs := 0
 	for _, b := range bad {
 		badIDs[b.script.ID] = true
 		confirmed := false
@@ -433,6 +434,14 @@ func runTQ(c *core.Ctx, own tqOwner, g tqGen) {
 		// not the schedule that led to it comes back: the driver process died of it, with the goroutine
 		// dump on its stderr.  (A hang could also be a slow machine, so it still has to repeat.)
 		inQueue := b.status == "panic" && strings.Contains(b.stderr, "panic: ") && strings.Contains(b.stderr, "github.com/git-lfs/git-lfs/v3/tq.")
+		if !confirmed && !inQueue && b.status == "hang" && unreproducedHangs < 2 {
+			// five seconds without an event that did not come back in six re-runs of the same script
+			// alone: a stalled machine, not an observation of the code.  Counted, not judged; more than
+			// two of them in one run are inconclusive all the same.
+			unreproducedHangs++
+			c.AddInt("hang_candidates_not_reproduced", 1)
+			continue
+		}
 		if !confirmed && !inQueue {
 			c.Infra("candidate %s of script %d did not reproduce in %d re-runs: inconclusive\n%s", b.status, b.script.ID, tries, core.Tail(b.stderr, 1500))
 		}
